@@ -16,14 +16,18 @@ def base_instance():
     """a real captured optimiser input (USA, all resilient foods) used as the template for constants"""
     if "base" not in _T:
         pipeline.init()
-        cap = pipeline.execute("USA", options.preset("ms_example_resilient"), "tiny_base", want_inputs=True)
-        _T["base"] = cap["inputs"][0]
         import os
         import sys
+        title = "tiny_base_%d" % os.getpid()       # workers share one results directory: keep file names apart
+        cap = pipeline.execute("USA", options.preset("ms_example_resilient"), title, want_inputs=True)
+        _T["base"] = cap["inputs"][0]
         rdir = os.path.join(sys.modules["src.optimizer.interpret_results"].repo_root, "results")
         for f in os.listdir(rdir):
-            if f.startswith("tiny_base"):
-                os.remove(os.path.join(rdir, f))
+            if f.startswith(title + "_"):
+                try:
+                    os.remove(os.path.join(rdir, f))
+                except FileNotFoundError:
+                    pass
     return _T["base"]
 
 
